@@ -163,6 +163,31 @@ def len_tag(t, roots, body, depth=0):
 LEN_FN_SUMMARY = {}
 
 
+def returns_len_snapshot(fn):
+    """A function of this crate that is handed the buffer and returns a position in it: on every return path the result
+    carries exactly one |buffer| snapshot taken inside the function (e.g. reserve_jentries: `let at = buf.len(); resize; at`)."""
+    if fn in LEN_FN_SUMMARY:
+        return LEN_FN_SUMMARY[fn]
+    LEN_FN_SUMMARY[fn] = False
+    import sym
+    fb = sym.FACTS.bodies.get(fn) if sym.FACTS is not None else None
+    if fb is None or fb.local_ty(0).get('s') != 'usize':
+        return False
+    roots = tuple(buffer_roots(fb))
+    if not roots:
+        return False
+    ok = False
+    for q in Explorer(fb, max_paths=500).explore():
+        if q.end[0] != 'return':
+            continue
+        if len_tag(q.ret, roots, fb, 1) != 1:
+            LEN_FN_SUMMARY[fn] = False
+            return False
+        ok = True
+    LEN_FN_SUMMARY[fn] = ok
+    return ok
+
+
 def atom_len_tag(a, roots, body, depth):
     if a[0] == 'call' and called(a[1], 'Vec::len', 'slice::len') and a[2] and alias_of(a[2][0], roots) is not None:
         return 1
@@ -171,7 +196,7 @@ def atom_len_tag(a, roots, body, depth):
     if a[0] == 'call' and a[2] and any(alias_of(x, roots) is not None for x in a[2]):
         # a local helper returning a buffer position (reserve_jentries)
         nm = a[1]
-        if called(nm, 'reserve_jentries'):
+        if returns_len_snapshot(nm):
             return 1
         return None
     if a[0] in ('init', 'hav', 'deref', 'field', 'downcast', 'index', 'call', 'cast', 'bin', 'post', 'locval'):
@@ -233,7 +258,7 @@ def cursor_is_len_derived(body, local, roots, seen=None):
             if called(n, 'Vec::len') and args and expr_alias(args[0], body, roots):
                 ok_init = True
                 continue
-            if called(n, 'reserve_jentries') and args and expr_alias(args[0], body, roots):
+            if returns_len_snapshot(n) and args and any(expr_alias(x, body, roots) for x in args):
                 ok_init = True
                 continue
             return False
@@ -302,7 +327,7 @@ def expr_len_tag(t, body, roots, self_local, seen):
     if k == 'call':
         if called(t[1], 'Vec::len') and t[2] and expr_alias(t[2][0], body, roots):
             return (1, False)
-        if called(t[1], 'reserve_jentries') and t[2] and expr_alias(t[2][0], body, roots):
+        if returns_len_snapshot(t[1]) and t[2] and any(expr_alias(x, body, roots) for x in t[2]):
             return (1, False)
         for x in t[2]:
             if expr_alias(x, body, roots):
@@ -492,8 +517,20 @@ def r17_5(ctx, run, rule='R17.5'):
     """Offsets reported by path selection are the buffer length taken after the item's bytes were appended."""
     f = ctx.facts
     n = 0
+    # result writers: the functions `Selector::select` hands the output buffer to (helpers they call in turn, which only
+    # append bytes, are judged through them)
+    sel = f.bodies.get("jsonpath::selector::Selector::<'a>::select")
+    writers = set()
+    if sel is not None:
+        for bb, t in sel.calls():
+            cn = callee_name(t)
+            cb = f.bodies.get(cn)
+            if cb is not None and any(is_vec_u8_mut(cb.local_ty(i)) for i in range(1, cb.argc + 1)):
+                writers.add(cn)
+    if not writers:
+        writers = {p for p in f.bodies if p.startswith("jsonpath::selector::Selector::<'a>::build_") and '{closure' not in p}
     for p, b in sorted(f.bodies.items()):
-        if not p.startswith("jsonpath::selector::Selector::<'a>::build_") or b.kind == 'Promoted':
+        if b.kind in ('Promoted', 'Closure') or '{closure' in p or p not in writers:
             continue
         roots = tuple(buffer_roots(b))
         ex = Explorer(b, max_paths=3000)
@@ -527,7 +564,8 @@ def r17_5(ctx, run, rule='R17.5'):
             evs = [e for e in q.events if e[0] == 'call']
             last_app = max([i for i, x in enumerate(evs) if x[2] and alias_of(x[2][0], roots) is not None and called(x[1], *APPEND)], default=-1)
             last_push = max([i for i, x in enumerate(evs) if called(x[1], 'Vec::push') and x[2] and not alias_of(x[2][0], roots)], default=-1)
-            if last_app >= 0 and last_push < last_app and q.end[0] in ('return', 'backedge') and not is_err_return(q):
+            iteration = q.end[0] in ('backedge', 'stop') and q.blocks and q.end[1] == q.blocks[0] and q.blocks[0] in loops
+            if last_app >= 0 and last_push < last_app and (q.end[0] == 'return' or iteration) and not is_err_return(q):
                 # build_scalar_array appends inside the loop and pushes once after it: accept when a later region pushes
                 if not p.endswith('build_scalar_array') or q.end[0] == 'return':
                     bad = bad or (evs[last_app], 'a path appends item bytes and then returns / starts the next item without reporting an offset')
